@@ -162,7 +162,10 @@ def frame_check(ctx, spec, k, T, K, tl=(), where="generated", cond_max=1e8, inpl
                         continue
                     dt, dr = M.pose_distance(kk, exp, got)
                     wd = max(wd, dt / (1.0 + tmagT + scene), dr)
-                if ra.num_iterations == rt.num_iterations:
+                # (only for runs that settled: a run that is still wandering after 20 iterations amplifies rounding differences without bound)
+                settled = bool(ra.converged) and bool(rt.converged) and ra.final_chi2 is not None and rt.final_chi2 is not None and \
+                    abs(float(ra.final_chi2) - float(rt.final_chi2)) <= 1e-6 * max(abs(float(ra.final_chi2)), 1e-300) + 100.0 * floor
+                if ra.num_iterations == rt.num_iterations and settled:
                     ctx.check("trajectory-commutes-with-frame-change", wd <= 1e-3, dict(feats, variant="default tol / max_iter: final poses"), {"worst_relative": wd, "T": T}, case)
                 ctx.count("class:default_arguments_run")
         except Exception as ex:
